@@ -428,6 +428,9 @@ import contracts.namedtype as _nt
 NAMEDTYPES = [(NT, c.id) for c in _nt.CONTRACTS]
 for _p in ('C09', 'C10'):
     PROPS[_p]['contracts'] = PROPS[_p]['contracts'] + NAMEDTYPES
+SCHEMALESS = [(D, 'ber.decoder::ConstructedPayloadDecoderBase._decodeComponentsSchemaless')]
+for _p in ('C16', 'C08'):
+    PROPS[_p]['contracts'] = PROPS[_p]['contracts'] + SCHEMALESS
 for _p in list(PROPS):
     NOT_CLAIMED.pop(_p, None)
 
